@@ -432,8 +432,22 @@ func loadContractsFile(pkgPath, dir, file string) (*PkgContracts, error) {
 			for _, s := range strings.FieldsFunc(parts[1], func(r rune) bool { return r == ',' || r == ' ' }) {
 				fns = append(fns, s)
 			}
+			tags := ""
 			for _, id := range strings.Fields(parts[0]) {
-				pc.Props[id] = append(pc.Props[id], fns...)
+				if strings.HasPrefix(id, "tags=") {
+					tags = strings.TrimPrefix(id, "tags=")
+				}
+			}
+			for _, id := range strings.Fields(parts[0]) {
+				if strings.HasPrefix(id, "tags=") {
+					continue
+				}
+				for _, f := range fns {
+					if tags != "" {
+						f = f + "@" + tags
+					}
+					pc.Props[id] = append(pc.Props[id], f)
+				}
 			}
 			cur = nil
 		case "assume", "note":
